@@ -5,6 +5,7 @@ import (
 	"fmt"
 	"os"
 	"path/filepath"
+	"sort"
 
 	"github.com/ontio/ontology-crypto/keypair"
 	s "github.com/ontio/ontology-crypto/signature"
@@ -23,6 +24,7 @@ type event struct {
 	Rid  int    `json:"rid"`
 	Same bool   `json:"same"`
 	Ids  []int  `json:"ids"`
+	F    bool   `json:"f"` // the wallet file was made unwritable for this call
 
 	Path    string `json:"path,omitempty"`
 	Origin  string `json:"origin,omitempty"`  // call that sealed the key of account ID last (new/import/chpw/convert)
@@ -84,6 +86,7 @@ type session struct {
 	label    func(name string) string
 	pick     func() scheme
 	events   []event
+	inFault  bool
 }
 
 func newSession(dir string, pw func(string) []byte, label func(string) string, pick func() scheme) *session {
@@ -137,6 +140,7 @@ func (ss *session) log(e event) event {
 	if e.Origin == "" {
 		e.Origin = ss.origin[e.ID]
 	}
+	e.F = ss.inFault
 	ss.events = append(ss.events, e)
 	return e
 }
@@ -168,6 +172,57 @@ func (ss *session) open(params string) event {
 	}
 	ss.cli = cli
 	return ss.log(event{Op: "reset", P: params, Res: "ok"})
+}
+
+// withSaveBlocked runs f while WalletData.Save(ss.path) cannot succeed: Save writes "<path>~" and renames it when the
+// file exists (a directory of that name blocks the write), and writes <path> directly when it does not (a directory at
+// <path> makes Save take the first route and fail at the rename).  Everything is restored afterwards.
+func (ss *session) withSaveBlocked(f func()) {
+	var undo func()
+	if _, err := os.Stat(ss.path); err == nil {
+		d := ss.path + "~"
+		vio.Must(os.Mkdir(d, 0755))
+		undo = func() { vio.Must(os.Remove(d)) }
+	} else {
+		vio.Must(os.Mkdir(ss.path, 0755))
+		undo = func() {
+			os.Remove(ss.path + "~")
+			vio.Must(os.Remove(ss.path))
+		}
+	}
+	ss.inFault = true
+	defer func() {
+		ss.inFault = false
+		undo()
+	}()
+	f()
+}
+
+// saveNow is a successful save of the client's wallet data as it is (what every mutating call does at its end).
+func (ss *session) saveNow() event {
+	return ss.log(ss.simple("save", 0, func() error { return ss.cli.GetWalletData().Save(ss.path) }))
+}
+
+// verifyAll asks for every account the driver believes to be in the wallet with its password (and with `also`, a password
+// that must not have become valid), first on the live client, then after a successful save and a reopen.
+func (ss *session) verifyAll(also string) (evs []event) {
+	round := func() {
+		var ids []int
+		for id := range ss.intended {
+			ids = append(ids, id)
+		}
+		sort.Ints(ids)
+		for _, id := range ids {
+			evs = append(evs, ss.get(id, ss.intended[id])...)
+			if also != "" && also != ss.intended[id] {
+				evs = append(evs, ss.get(id, also)...)
+			}
+		}
+	}
+	round()
+	evs = append(evs, ss.saveNow(), ss.reopen())
+	round()
+	return evs
 }
 
 func (ss *session) register(op string, prv keypair.PrivateKey, pub keypair.PublicKey, addr string, pwName string) int {
